@@ -6,6 +6,7 @@ import NixModel.Lemmas.C18History
 import NixModel.Lemmas.C18Shape
 import NixModel.Lemmas.C18Inside
 import NixModel.Lemmas.C18Total
+import NixModel.Lemmas.C18Names
 
 /-!
 # C18 — format upgrade preserves content, is idempotent and resumable
@@ -245,6 +246,27 @@ theorem C18_content_partial (lib : List Nat) (r : Nat) (f : File) (hwf : WF f) (
   · intro p n hp
     exact lookup_of_mem hwfG.1 (hP.1.keepNew p n hp)
 
+/-- The hypothesis of `C18_content_partial` in the terms of the finding. `Clean` asks that all paths and all
+`<name>.<extra>` names be pairwise distinct; distinct (property, extra) pairs always give distinct names (the five
+suffixes differ in their last two characters), so it is enough that no dataset already sits at a `<name>.<extra>`
+name of a compound property (`NoNameTaken`, decidable): then the upgrade succeeds, every interruption point is
+reached and resumed with the same result, and the whole content is preserved. -/
+theorem C18_content_no_name_taken (lib : List Nat) (r1 r2 r3 k : Nat) (f : File) (hwf : WF f) (h : NoNameTaken f)
+    (hold : upToDate lib f = false) :
+    ContentPreserved lib r3 f ∧
+    (interrupt lib r1 k f).2 = none ∧
+    (upgrade lib r2 (interrupt lib r1 k f).1).2 = none ∧
+    (upgrade lib r2 (interrupt lib r1 k f).1).1.erase = (upgrade lib r3 f).1.erase :=
+  ⟨C18_content_partial lib r3 f hwf (clean_of_noNameTaken hwf.1 h) hold,
+   C18_resumable_clean lib r1 r2 r3 k f hwf (clean_of_noNameTaken hwf.1 h)⟩
+
+/-- The only way an upgrade can fail: a dataset sits at a `<name>.<extra>` name (the class of the open finding). -/
+theorem C18_fails_only_on_taken_name (lib : List Nat) (r : Nat) (f : File) (hwf : WF f)
+    (hfail : (upgrade lib r f).2 ≠ none) : ¬ NoNameTaken f := by
+  intro h
+  have := (C18_resumable_clean lib r r r 0 f hwf (clean_of_noNameTaken hwf.1 h)).2.1
+  exact hfail (by simpa [interrupt, runSteps] using this)
+
 /-- What no run loses — for every file (no hypothesis on names: the files of the open finding included), every
 list of steps (the collected one, any prefix of it, a stale one) and whether or not a step fails: every
 property is still there and reads the same dtype, values, unit and definition, and everything outside
@@ -292,6 +314,7 @@ theorem C18_content_counterexample : ¬ C18_content := by
   decide +kernel
 
 example : ¬ Clean clash := by decide +kernel
+example : ¬ NoNameTaken clash := by decide +kernel
 
 /-- non-vacuity of `C18_failed_stays_old` / `C18_values_never_lost`: on `clash` the upgrade fails, the value of `a`
 is still read, its reference text is not -/
@@ -315,6 +338,7 @@ def sample : File :=
 
 example : WF sample := by decide
 example : Clean sample := by decide +kernel
+example : NoNameTaken sample := by decide +kernel
 
 theorem sample_collect : collect [1, 2, 1] sample =
     [.addId, .prop ["s", "properties", "a"], .prop ["s", "properties", "b"],
@@ -360,6 +384,8 @@ theorem C18_inside_dim (run : Nat) (daid : String) (a : Arr) (d : Dim) (h : d.ha
     isAliasDim d = false ∧ convertDimObj run daid d = (d, some .valueError) ∧
     readDim a d = ⟨a.data, a.unit, a.label⟩ :=
   half_converted_dim run daid a d h
+
+example : (⟨"1", "range", none, some "u", none, true, some (newLink 1 "id-a")⟩ : Dim).halfConverted = true := rfl
 
 /-- the statement one might hope for: a run cut inside a conversion is completed by the re-run -/
 def InsideRecoverable : Prop :=
